@@ -163,11 +163,17 @@ def strmethod_driver(group, api):
             arg = ", A"
         else:
             arg = ""
-        src = ("R = new RegExp(P, F); R.lastIndex = L; try { var r = S.%s(R%s);"
+        pre = "R.exec(S); " if c.get("pre") == "exec" else ""
+        src = ("R = new RegExp(P, F); R.lastIndex = L; " + pre + "__out('li1', R.lastIndex); try { var r = S.%s(R%s);"
                " __out('v', r, (r !== null && typeof r === 'object' && r.index !== undefined) ? r.index : -1, R.lastIndex); }"
                " catch (e) { __out('t', __cls(e)); }") % (m, arg)
         del got[:]
         out = api.eval_outcome(ctx, src, wall=30.0, cap=5_000_000)
+        li1 = c["li0"]
+        if got and got[0][0] == "li1":
+            w1 = wire.to_wire(got[0][1])
+            li1 = int(wire.words_dbl(w1["w"])) if w1["k"] == "num" and wire.words_dbl(w1["w"]) == int(wire.words_dbl(w1["w"])) else -99
+            del got[0]
         if out["o"] != "value":
             tag, ty = outcome_tag(out)
             o = {"o": tag, "ty": ty, "at": str(out.get("where", ""))}
@@ -179,5 +185,5 @@ def strmethod_driver(group, api):
             wi = wire.to_wire(got[0][2])
             idx = int(wire.words_dbl(wi["w"])) if wi["k"] == "num" and wire.words_dbl(wi["w"]) == int(wire.words_dbl(wi["w"])) else -2
             o = {"o": "value", "v": wire.to_wire(got[0][1]), "idx": idx, "li": wire.to_wire(got[0][3])}
-        results.append({"id": c["id"], "out": o})
+        results.append({"id": c["id"], "out": o, "li1": li1})
     return results
